@@ -111,16 +111,34 @@ Theorem C14_identity_ci : forall (S K N H : Type) dynamic_choice builtin_sample 
 Proof. exact identity_ci. Qed.
 Print Assumptions C14_identity_ci.
 
-(* an integer-valued metric (e.g. confusion-matrix counts) with bootstrap_method = "bca" — the default of
-   BootstrapConfig — makes Scores.bootstrap_ci raise (C13_int_bca_refuted): the clause "bootstrap_ci equals the
-   documented CI formula applied to those replicates" is refuted for such metrics. *)
-Theorem C14_int_metric_bca_refuted : forall (S K N H : Type) dynamic_choice builtin_sample getattr_type (Phi PhiInv pow15 : Q -> Q) yshape
+(* an integer-valued metric (e.g. confusion-matrix counts) is treated like the same values as floats (fix 4a7af20) *)
+Theorem C14_int_metric_same : forall (S K N H : Type) dynamic_choice builtin_sample getattr_type (Phi PhiInv pow15 : Q -> Q) dt yshape
     (self : S) (metric : metric_arg S K (list rate) N) alpha (cfg : config S) (hist : nat -> H) (kw : K),
-  bootstrap_method cfg = MBca ->
-  bootstrap_ci_m S K (list rate) N H _ dynamic_choice builtin_sample getattr_type (utils_ci_dt Phi PhiInv pow15 DInt yshape)
-                 self metric alpha cfg hist kw = Err.
-Proof. exact int_metric_bca_raises. Qed.
-Print Assumptions C14_int_metric_bca_refuted.
+  bootstrap_ci_m S K (list rate) N H _ dynamic_choice builtin_sample getattr_type (utils_ci_dt Phi PhiInv pow15 dt yshape)
+                 self metric alpha cfg hist kw
+  = bootstrap_ci_m S K (list rate) N H _ dynamic_choice builtin_sample getattr_type (utils_ci Phi PhiInv pow15 yshape)
+                 self metric alpha cfg hist kw.
+Proof. exact int_metric_same. Qed.
+Print Assumptions C14_int_metric_same.
+
+(* the CI routine never makes bootstrap_ci fail (fix fa251ac): when the sampling calls succeed, bc/bca return shape
+   metric_shape+(2,), entry j = one-component interval of replicate column j with estimate j — (NaN, NaN) exactly for
+   components that are NaN in every sample (C13_component_total), the other components unaffected *)
+Theorem C14_ci_total : forall (S K N H : Type) dynamic_choice builtin_sample getattr_type (Phi PhiInv pow15 : Q -> Q) yshape
+    (self : S) (metric : metric_arg S K (list rate) N) alpha (cfg : config S) (hist : nat -> H) (kw : K) rows,
+  (forall x, 0 <= Phi x /\ Phi x <= 1) ->
+  bootstrap_method cfg <> MQuantile ->
+  bootstrap_metric S K (list rate) N H dynamic_choice builtin_sample getattr_type self metric cfg hist kw = Ok rows ->
+  let hat := resolve_metric S K (list rate) N getattr_type self metric self kw in
+  length hat = prod_shape yshape ->
+  exists data,
+    bootstrap_ci_m S K (list rate) N H _ dynamic_choice builtin_sample getattr_type (utils_ci Phi PhiInv pow15 yshape)
+                   self metric alpha cfg hist kw = Ok (yshape ++ [2%nat], data) /\
+    forall j, (j < prod_shape yshape)%nat ->
+      ci_col Phi PhiInv pow15 (bootstrap_method cfg) (column rows j) (nth j hat None) alpha
+      = Ok (nth (j * 2 + 0) data None, nth (j * 2 + 1) data None).
+Proof. exact bootstrap_ci_m_total. Qed.
+Print Assumptions C14_ci_total.
 
 (* reproducibility: results are a function of the arguments and of the RNG draw histories of the calls made;
    equal histories (same global seed, same call sequence) give equal results *)
